@@ -6,11 +6,15 @@
         with "bound": the exactly computed error bound of Props/C03 section 10 (`errD`, `errTot`, `errNormAt`) and
         whether the hypotheses of `probsSvd_precision_bound` hold for this input
     {"op":"dm",  "members":[…un-tagged…], "nmax":n}
+    {"op":"evolve", "terms":[…], "cut2":"1/1000000000000"}   the vector `Simulator.evolve` returns: exact un-normalised
+        amplitudes, squared norm of input and output, per output the bound `lossAt` on what the native cut can change
+    {"op":"evolve_svd", "members":[…], "cut2":…}   the members of `evolve_svd`'s result and the outcome distribution
   everything else falls through to the shared specification driver (`handleSim`).
 -/
 import PercevalModel.SimProto
 import PercevalModel.Model.C03
 import PercevalModel.Model.C03Prec
+import PercevalModel.Model.C03Evolve
 
 open Lean PM PM.Proto PM.Fock PM.Dist PM.SimSpec PM.SimProto PM.C03
 
@@ -59,6 +63,19 @@ def anyTagged (j : Json) : Except String Bool := do
   let ms ← (← j.getArr?).toList.mapM fun mj => do rawTerms (← mj.getObjVal? "terms")
   pure (ms.any fun ts => ts.any fun t => t.2.any fun mode => mode.any (· != 0))
 
+/-- the fields describing `Simulator.evolve` of one superposition -/
+def evolveFields {m : ℕ} (U : Matrix (Fin m) (Fin m) GQ) (ts : List SimSpec.Term) (cut2 : ℚ) : List (String × Json) :=
+  let cs := contribs U ts
+  let ev := gatherAmps cs
+  let n2 := svNorm2 ts
+  let out2 := (ev.map fun p => GQ.normSq p.2 / (((p.1.map prodFact).prod : ℕ) : ℚ)).sum
+  let loss := ev.filterMap fun p =>
+    let l := lossOf cs cut2 n2 p.1
+    if l = 0 then none else some (Json.arr #[toJson p.1, ratToJson l])
+  [("evolve", ampsToJson ev), ("norm2", ratToJson n2), ("outNorm2", ratToJson out2),
+   ("evolve_is_spec", toJson (sameAmps ev (svAmps U ts))), ("norm_preserved", toJson (out2 == n2)),
+   ("loss", Json.arr loss.toArray), ("ncontribs", toJson cs.length)]
+
 def handleE (j : Json) : Except String Json := do
     let op ← strOf j "op"
     match op with
@@ -94,12 +111,17 @@ def handleE (j : Json) : Except String Json := do
         toJson (((annotMap o).map fun p => prodFact p.2).prod)]
       -- each term on its own (for the linearity oracle evaluated on the implementation)
       let each := ts.map fun t => ampsToJson (gatherAmps (evolveCode U [⟨1, t.groups⟩]))
-      return Json.mkObj [("tags", toJson univ), ("evolve", ampsToJson ev),
+      let cutFields : List (String × Json) ← match j.getObjVal? "cut2" with
+        | .ok c => do
+          let cut2 ← ratOfJson c
+          pure ((evolveFields U ts cut2).filter fun f => f.1 == "loss" || f.1 == "outNorm2" || f.1 == "ncontribs")
+        | .error _ => pure []
+      return Json.mkObj (cutFields ++ [("tags", toJson univ), ("evolve", ampsToJson ev),
         ("evolve_is_spec", toJson (sameAmps ev spec)), ("norm2", ratToJson (svNorm2 ts)),
         ("probs", distToJson (probsSVcode U ts)), ("spec", distToJson (probsSV U ts)),
         ("each", Json.arr each.toArray),
         ("termnorm2", Json.arr (ts.map fun t => ratToJson (svNorm2 [{ coef := 1, groups := t.groups }])).toArray),
-        ("pa", Json.arr pa.toArray)]
+        ("pa", Json.arr pa.toArray)])
     | "svd" =>
       let ⟨m, U⟩ ← matOfJson j
       let ms ← membersOfGlobal m (← j.getObjVal? "members")
@@ -129,7 +151,17 @@ def handleE (j : Json) : Except String Json := do
            ("trimMass", ratToJson (mixMass (probsSV U) dropped)), ("dropped", toJson dropped.length),
            ("hyps", toJson hyps)]
         else []
-      return Json.mkObj (boundFields ++ [("probs", distToJson (normalize raw)),
+      let evFields : List (String × Json) ← match j.getObjVal? "cut2" with
+        | .ok c => do
+          let cut2 ← ratOfJson c
+          let raws ← (← (← j.getObjVal? "members").getArr?).toList.mapM fun mj => do rawTerms (← mj.getObjVal? "terms")
+          let univ := firstOcc (raws.flatMap universeOf)
+          let members := ((evolveSvd U ms).zip ms).map fun e =>
+            Json.mkObj (("w", ratToJson e.1.w) :: evolveFields U e.2.terms cut2)
+          pure [("ev", Json.mkObj [("tags", toJson univ), ("members", Json.arr members.toArray),
+            ("probs", distToJson (probsOfEvolveSvd U ms))])]
+        | .error _ => pure []
+      return Json.mkObj (evFields ++ boundFields ++ [("probs", distToJson (normalize raw)),
         ("spec", distToJson (normalize full)), ("full", distToJson full),
         ("keptExact", distToJson (normalize (probsSVD U (pre.kept.map fun mb => (mb.w, mb.terms))))),
         ("theta", ratToJson pre.θ), ("superposed", toJson pre.superposed),
@@ -137,6 +169,28 @@ def handleE (j : Json) : Except String Json := do
         ("keptW", toJson (pre.kept.map fun mb => ratToJson mb.w)),
         ("cutMass", ratToJson (totW - keptW)), ("totalW", ratToJson totW),
         ("members", Json.arr (ms.map fun mb => distToJson (probsSV U mb.terms)).toArray)])
+    | "evolve" =>
+      let ⟨m, U⟩ ← matOfJson j
+      let raw ← rawTerms (← j.getObjVal? "terms")
+      if raw.any (·.2.length ≠ m) then throw "bad state"
+      let cut2 ← ratOfJson (← j.getObjVal? "cut2")
+      let univ := universeOf raw
+      let ts := termsOver m univ raw
+      return Json.mkObj (("tags", toJson univ) :: evolveFields U ts cut2)
+    | "evolve_svd" =>
+      let ⟨m, U⟩ ← matOfJson j
+      let ms ← membersOfGlobal m (← j.getObjVal? "members")
+      let cut2 ← ratOfJson (← j.getObjVal? "cut2")
+      let raws ← (← (← j.getObjVal? "members").getArr?).toList.mapM fun mj => do rawTerms (← mj.getObjVal? "terms")
+      let univ := firstOcc (raws.flatMap universeOf)
+      let ev := evolveSvd U ms
+      let members := (ev.zip ms).map fun e =>
+        Json.mkObj (("w", ratToJson e.1.w) :: evolveFields U e.2.terms cut2)
+      let probs := probsOfEvolveSvd U ms
+      let spec := normalize (probsSVD U (ms.map fun mb => (mb.w, mb.terms)))
+      return Json.mkObj [("tags", toJson univ), ("members", Json.arr members.toArray),
+        ("probs", distToJson probs), ("spec", distToJson spec), ("probs_is_spec", toJson (sameDist probs spec)),
+        ("totalW", ratToJson (ms.map (·.w)).sum)]
     | "dm" =>
       let ⟨m, U⟩ ← matOfJson j
       let ms ← membersOf m (← j.getObjVal? "members")
